@@ -128,6 +128,22 @@ class K(Rec):
         # a plain-alias child below a kind/name component: its default-named resources must stay "default"
         self.add_component("w", type=W, tag=self.kw.get("tag", ""))
 
+    def start(self) -> Any:  # type: ignore[override]
+        # NOT a coroutine function (as when start() is wrapped by a decorator): the default-named resource is added synchronously
+        # while start() is being CALLED, the rest in the awaitable it returns - both belong to the start phase
+        tag = self.kw.get("tag", "")
+        if tag == "n":
+            return super().start()  # (the hard-coded k/n child keeps the ordinary coroutine-function behaviour)
+        fam = self.family + (tag if self.per_tag else "")
+        add_resource(rtype(fam, "s")(fam, f"{type(self).__name__}:{tag}:start-default"))
+
+        async def rest() -> None:
+            add_resource(rtype(fam, "s")(fam, f"{type(self).__name__}:{tag}:start-named"), f"ns_{self.family}{tag}")
+            T = rtype(self.family + tag, "sf")
+            add_resource_factory(lambda T=T, fam=fam, tag=tag: T(fam, f"{type(self).__name__}:{tag}:start-factory"), types=T)
+
+        return rest()
+
 
 # hard-coded defaults kept in a module-level constant, as real components do: merging must not modify them
 A_DEFAULT_D = {"p": 1, "q": {"r": 1}}
